@@ -22,8 +22,29 @@ Definition lcls_eqb (a b : lcls) : bool :=
 Record lst := mkl { l_res : list str; l_sep : lcls; l_tok : str; l_bs : bool }.
 Definition lst0 := mkl [] LOther [] false.
 
+(** [trim_cmd] (parser_line.rs): trims white space around one command of a
+    list, but keeps one trailing white-space character when it is escaped by an
+    odd number of backslashes. *)
+Fixpoint leading_bs (s : str) : nat :=
+  match s with
+  | c :: r => if c =? 92 then S (leading_bs r) else O
+  | [] => O
+  end.
+
+Definition trim_cmd (tok : str) : str :=
+  let t := trim_start tok in
+  let trimmed := trim_end t in
+  if Nat.ltb (length trimmed) (length t) then
+    if Nat.odd (leading_bs (rev trimmed)) then
+      match skipn (length trimmed) t with
+      | c :: _ => trimmed ++ [c]
+      | [] => trimmed
+      end
+    else trimmed
+  else trimmed.
+
 Definition push_trimmed (res : list str) (tok : str) : list str :=
-  let t := trim tok in if is_empty t then res else res ++ [t].
+  let t := trim_cmd tok in if is_empty t then res else res ++ [t].
 
 Inductive loutcome := LCont (s : lst) | LBreak (s : lst).
 
